@@ -55,19 +55,14 @@ Definition py_slice {A} (l : list A) (a b : option Z) : list A :=
   let hi := match b with None => len | Some i => norm_index len i end in
   if (lo <? hi)%Z then firstn (Z.to_nat (hi - lo)) (skipn (Z.to_nat lo) l) else [].
 
-Fixpoint find_sub_from (sub rest : text) (acc : N) (fuel : nat) : option N :=
+Fixpoint find_sub_from (sub rest : text) (acc : N) {struct rest} : option N :=
   (* earliest offset (relative, added to acc) at which sub occurs in rest *)
-  match fuel with
-  | O => None
-  | S f =>
-      match strip_prefix sub rest with
-      | Some _ => Some acc
-      | None => match rest with [] => None | _ :: r => find_sub_from sub r (acc + 1)%N f end
-      end
+  match strip_prefix sub rest with
+  | Some _ => Some acc
+  | None => match rest with [] => None | _ :: r => find_sub_from sub r (acc + 1)%N end
   end.
 
-Definition find_sub (sub rest : text) : option N :=
-  find_sub_from sub rest 0%N (S (length rest)).
+Definition find_sub (sub rest : text) : option N := find_sub_from sub rest 0%N.
 
 Lemma strip_prefix_app : forall lit rest r, strip_prefix lit rest = Some r -> rest = lit ++ r.
 Proof.
